@@ -376,6 +376,13 @@ def _attr_loaded_anywhere(ctx, c, attr, writes_nodes):
                         if isinstance(st, ast.AugAssign) or (isinstance(st, ast.Expr)):
                             continue
                     return True
+                # reflective reads: getattr(self, 'attr'[, default]) / hasattr(self, 'attr') / vars(self) / self.__dict__
+                if isinstance(x, ast.Call) and call_name(x) in ("getattr", "hasattr") and len(x.args) >= 2 and isinstance(x.args[0], ast.Name) and x.args[0].id == "self" \
+                        and (const_str(x.args[1]) == attr or const_str(x.args[1]) is None):
+                    return True
+                if (isinstance(x, ast.Call) and call_name(x) == "vars" and x.args and isinstance(x.args[0], ast.Name) and x.args[0].id == "self") or \
+                        (isinstance(x, ast.Attribute) and x.attr == "__dict__" and isinstance(x.value, ast.Name) and x.value.id == "self" and fn.name not in ("__getstate__", "__setstate__", "__reduce__")):
+                    return True
     # access from other modules through an object: <x>.<attr>
     for mod in m.modules.values():
         for x in ast.walk(mod.tree):
@@ -1064,6 +1071,27 @@ def r6_replay_buffer(ctx, rule="C04.R6", base=False):
     ctx.ob(rule, PF, "Cache.filter", first_iter[0] if first_iter else fn, "the source is opened once per generation of the buffer (first read, or first read after a failed one)", ok, stmt="open source once")
     replays = [x for x in walk_shallow(fn) if isinstance(x, ast.YieldFrom) and unparse(x.value) == "self._cache"]
     ctx.ob(rule, PF, "Cache.filter", fn, "every read first replays the buffer (complete: only the buffer; incomplete: the buffer, then the rest of the saved iterator)", len(replays) == 2, stmt="replay buffer first")
+    # the same invariant for the state that is pickled / deep copied: 'buffer without iterator' MEANS complete, so a copy that leaves the iterator of an unfinished read
+    # behind leaves the unfinished buffer behind with it
+    gs = ctx.model.cls(PF, "Cache").methods.get("__getstate__")
+    if gs is not None:
+        def pairs_of(st):
+            out = []
+            for t in st.targets:
+                if isinstance(t, ast.Tuple) and isinstance(st.value, ast.Tuple) and len(t.elts) == len(st.value.elts):
+                    out += list(zip(t.elts, st.value.elts))
+                else:
+                    out.append((t, st.value))
+            return out
+
+        def drops(st, key):
+            return any(isinstance(t, ast.Subscript) and const_str(t.slice) == key and isinstance(v, ast.Constant) and v.value is None for t, v in pairs_of(st))
+        it_drops = [st for st in ast.walk(gs) if isinstance(st, ast.Assign) and drops(st, "_iter")]
+        ctx.floor(rule, "places where Cache.__getstate__ leaves the iterator behind", len(it_drops), 1)
+        for st in it_drops:
+            blk = next((body for n_ in ast.walk(gs) for body in (getattr(n_, "body", None), getattr(n_, "orelse", None)) if isinstance(body, list) and st in body), [st])
+            ok = drops(st, "_cache") or any(isinstance(x, ast.Assign) and drops(x, "_cache") for x in blk)
+            ctx.ob(rule, PF, "Cache.__getstate__", st, "the copy that leaves an unfinished read's iterator behind leaves its partly filled buffer behind too", ok, stmt="getstate drops buffer with iterator")
 
 
 # ------------------------------------------------------------------------------------------ R7
@@ -1316,6 +1344,8 @@ CONTROLS = [
     ("Encode fits into the caller's mapping", PF, M.replace_expr("Encode.filter", "dict(self._encoders)", "self._encoders", nth=0), "C04.R17"),
     ("Densify replays only the started round", "coba/environments/filters.py", M.replace_expr("Densify.__setstate__", "lookup", "range(len(lookup) % self._n_feats)", nth=1), "C04.R15"),
     ("Cache pickles the iterator of an unfinished read", "coba/pipes/filters.py", lambda tree: _drop_methods(tree, "Cache", ("__getstate__",)), "C04.R15"),
+    ("a copied Cache keeps the partly filled buffer of an unfinished read", "coba/pipes/filters.py", M.replace_stmt("Cache.__getstate__", M.text_has("state['_iter'], state['_cache'] = (None, None)"), "if state['_iter'] is not None: state['_iter'] = None"), "C04.R6"),
+    ("the neighbourhoods of a synthetic simulation are laid out once", "coba/environments/synthetics.py", M.insert_before("NeighborsSyntheticSimulation.read", lambda st: isinstance(st, ast.If) and "n_action_feats == 0" in ast.unparse(st.test), "worlds = getattr(self, 'worlds', None)"), "C04.R2"),
     ("Densify without pickling hooks", "coba/environments/filters.py", lambda tree: _drop_methods(tree, "Densify", ("__getstate__", "__setstate__")), "C04.R15"),
     ("rewards pickle as unchecked repr text", "coba/primitives.py", M.chain(M.replace_expr("DiscreteReward.__getstate__", "_as_literal((self._state, self._default))", "repr((self._state, self._default))"),
         M.replace_expr("DiscreteReward.__setstate__", "_of_literal(args)", "literal_eval(args)")), "C04.R14"),
